@@ -96,6 +96,10 @@ def finish(run, h, prop):
     if h is None:
         return
     h["thread"].join()
+    try:
+        blocks = json.load(open(os.path.join(os.path.dirname(h["files"][0]), "tview_blocks_%s.json" % prop)))
+    except Exception:
+        blocks = {}
     ok = True
     seen = set()
     counts = {}
@@ -117,9 +121,11 @@ def finish(run, h, prop):
             seen.add(key)
             rec, raw = token_record(f, wid, link)
             both = render_both(f, wid, link, "true" if full else "false")
-            run.violation(key, "world %d, token with link number %d: %s — the token the validator model reasons about is not the decoding of "
-                          "the stored bytes as the Go accessors read them" % (wid, link, what_of(code)),
-                          dict(world_id=wid, token_link=link, code=code, case_file=f, bytes_hex=raw.hex(), token_record=rec,
+            lab = blocks.get("%d/%d" % (wid, link))
+            where = ("hand-written root block '%s' (family %d, block %d)" % (lab, wid, link)) if lab else ("world %d, token with link number %d" % (wid, link))
+            run.violation(key, "%s: %s — the token the validator model reasons about is not the decoding of "
+                          "the stored bytes as the Go accessors read them" % (where, what_of(code)),
+                          dict(world_id=wid, token_link=link, code=code, hand_written_block=lab, case_file=f, bytes_hex=raw.hex(), token_record=rec,
                                coq_evaluation="(code, model's view of the bytes, harness rendering from the Go accessors, model verifier set, observed verifier set):\n" + both,
                                mode="observed (key, message, signature) table: the model rebuilds the signed message" if full else "per-token observed key set",
                                how="bin/check %s --replay <this file> prints this record; coqc on tview_replay.v next to the case file re-evaluates the token" % prop))
